@@ -175,6 +175,10 @@ def main():
             index.append((mid, props, note))
         finally:
             shutil.rmtree(tmp)
+    HAND_MADE = [("M02-revert-D1", "C01 C11 C12 C15", "the pinned tree's defect D1 (MultiScalarMult receiver), i.e. the fix reverted"),
+                 ("M10-projlookup-direct-index", "C03", "secret-indexed table load"),
+                 ("M44-once-to-bool", "C18", "sync.Once replaced by a plain bool")]
+    index += [h for h in HAND_MADE if os.path.exists(os.path.join(OUT, h[0] + ".diff"))]
     with open(os.path.join(OUT, "INDEX.tsv"), "w") as fo:
         for mid, props, note in index:
             fo.write("%s\t%s\t%s\n" % (mid, props, note))
